@@ -33,7 +33,12 @@ def main(argv=None):
     od4 = [SR.random_super_input(rng, 4, rng.randint(2, 3), rng.randint(2, 3), True, rootsyn_p=0.1, consistent_p=0.9) for _ in range(70 if q else 500)]
     un5 = [SR.random_super_input(rng, 5, rng.randint(2, 4), rng.randint(2, 4), False) for _ in range(40 if q else 300)]
     pol = ["any", "all"]
+    hist = [D.random_plain_input(rng, rng.randint(3, 4), rng.randint(2, 4)) for _ in range(6 if q else 40)]
+    hist_u = [SR.random_super_input(rng, rng.randint(3, 4), rng.randint(2, 3), rng.randint(2, 3), False) for _ in range(4 if q else 30)]
     sections = [
+        ("call history (fresh interpreter; earlier calls, or the same input object with its costs changed in place): thl, exh",
+         [(d, SR.history_runs(["thl", "exh"], FLAGS, ("any", "all"))) for d in hist], False),
+        ("call history: base_uspfs, superdtl", [(d, SR.history_runs(["base_uspfs", "superdtl"], FLAGS, ("all",))) for d in hist_u], False),
         ("plain: thl, exh", [(d, SR.runs_for(["thl", "exh"], pol, FLAGS, "full")) for d in plain], False),
         ("unordered: base_uspfs, superdtl", [(d, SR.runs_for(["base_uspfs", "superdtl"], pol, FLAGS, "full")) for d in un], False),
         ("ordered: base_spfs, ext_spfs (<= 3 leaves x <= 3 families)", [(d, SR.runs_for(["base_spfs", "ext_spfs"], pol, FLAGS, "full")) for d in od], False),
